@@ -375,8 +375,12 @@ def selection_rules(repo, rep):
     if isinstance(lat_a, Rat) and isinstance(lon_a, Rat):
         check_equal(rep, 'R-AFFINE', base2 + 'row', w, row, alg.opaque('int', ((lat_a - G.fields['s_lat']) / G.fields['lat_inc'],)), 'row = int((lat - s_lat)/lat_inc) of the chosen sub-grid')
         check_equal(rep, 'R-AFFINE', base2 + 'col', w, col, alg.opaque('int', ((lon_a - G.fields['e_long']) / G.fields['long_inc'],)), 'col = int((lon - e_long)/long_inc) of the chosen sub-grid')
-        check_equal(rep, 'R-AFFINE', base2 + 'num_cols', w, ncols, C(1) + alg.opaque('int', ((G.fields['w_long'] - G.fields['e_long']) / G.fields['long_inc'],)),
-                    'num_cols = 1 + int((w_long - e_long)/long_inc)')
+        # the extent is a whole number of increments only up to the rounding of the stored header values (extents are kept to 0.001", increments
+        # to 0.000001") and of the float division: the quotient may land just below the integer, so the count must be the NEAREST integer -
+        # truncation gives one column too few and every row after the first is addressed at the wrong node
+        check_equal(rep, 'R-AFFINE', base2 + 'num_cols', w, ncols, C(1) + alg.opaque('nearest', ((G.fields['w_long'] - G.fields['e_long']) / G.fields['long_inc'],)),
+                    'num_cols = 1 + round((w_long - e_long)/long_inc): the column count is the nearest integer of the float quotient (56 x 56.250125" gives '
+                    '55.9999999999997: truncation yields 56 columns instead of 57)')
     # both calls receive the same arguments
     same = all(stmt_text(a) == stmt_text(b) for a, b in zip(calls[0].args, calls[1].args)) and len(calls[0].args) == len(calls[1].args)
     key = base2 + 'same-arguments'
